@@ -309,6 +309,8 @@ pub struct ProxyState {
     /// forward a datagram that packs several records as one datagram per record (same order), so that
     /// every record is individually addressable (peers that pack a whole flight into one datagram)
     pub unpack: bool,
+    /// with `unpack`: send the surviving records of one original datagram as one datagram again
+    pub repack: bool,
     /// every original (pre-fault) plaintext handshake message seen: (dir, type, mseq) -> body hash
     pub originals: Vec<Value>,
 }
@@ -327,6 +329,7 @@ impl ProxyState {
             seq_shift: HashMap::new(),
             forwarded: 0,
             unpack: false,
+            repack: false,
             originals: Vec::new(),
         }
     }
@@ -506,6 +509,12 @@ impl ProxyState {
                 let mut out = Vec::new();
                 for r in recs {
                     out.extend(self.process_one(dir, &encode_record_raw(&r)));
+                }
+                if self.repack && out.len() > 1 {
+                    // the operations were applied record by record; what is left travels again as the one
+                    // datagram the peer packed (the receiver has to walk several records per datagram)
+                    net_event("repack", json!({"dir": dir, "n": out.len()}));
+                    return vec![out.concat()];
                 }
                 return out;
             }
